@@ -64,6 +64,10 @@ class Integrator(object):
             Integration result as float.
         """
 
+        # Equal numbers of different numeric types (True == 1 == 1.0 == np.float32(1)) share a cache entry, but numpy
+        # evaluates the integrals in the precision of the argument type: make the value a function of the key.
+        theta, a = float(theta), float(a)
+
         # Caching
         if (integrand, theta, a) in self._cache:
             return self._cache[(integrand, theta, a)]
